@@ -770,7 +770,7 @@ func init() {
 		Run: func(c *vCase) { vRunTrigCase(c, "C01") },
 		Meta: vMeta{
 			Level: "exploration",
-			Rule: "case = (channels, signedness, npre/nsamp, first frame, period, ground-truth streams with planted pulses and adversarial segments, block partition family, trigger mode incl. edge-multi and group connections, reconfiguration schedule), all drawn from PRNG(seed,idx); every record observed on the shared publish channel is compared with the ground truth excerpt, frame and time; non-trivial = at least one record emitted; distinct = distinct case descriptions",
+			Rule:  "case = (channels, signedness, npre/nsamp, first frame, period, ground-truth streams with planted pulses and adversarial segments, block partition family, trigger mode incl. edge-multi and group connections, reconfiguration schedule), all drawn from PRNG(seed,idx); every record observed on the shared publish channel is compared with the ground truth excerpt, frame and time; non-trivial = at least one record emitted; distinct = distinct case descriptions",
 			Assumptions: []string{"records are observed on the shared publish channel (PubRecordsChan) that every channel processor sends to; the ZMQ encoding is C14's subject",
 				"block time stamps are synthetic and consistent (T0 + frame*period) except in the jitter family, where extrapolation from the emitting or the containing block is accepted",
 				"decimation is not exercised (no control request can enable it)"},
@@ -790,7 +790,7 @@ func init() {
 		Run: func(c *vCase) { vRunTrigCase(c, "C02") },
 		Meta: vMeta{
 			Level: "exploration",
-			Rule: "case as C01 without edge-multi/group; control history = settings restored from configuration or applied by ChangeTriggerState, then 0-3 reconfigurations (new trigger settings, ConfigurePulseLengths same/changed) between blocks; oracle = independent scan of the ground truth for the edge and level criteria per epoch (soundness, edge completeness with one-record dead time, level completeness within one record, no overlap for edge-only, auto gap bound); non-trivial = at least one primary emitted",
+			Rule:  "case as C01 without edge-multi/group; control history = settings restored from configuration or applied by ChangeTriggerState, then 0-3 reconfigurations (new trigger settings, ConfigurePulseLengths same/changed) between blocks; oracle = independent scan of the ground truth for the edge and level criteria per epoch (soundness, edge completeness with one-record dead time, level completeness within one record, no overlap for edge-only, auto gap bound); non-trivial = at least one primary emitted",
 			Assumptions: []string{"decidable domain of an epoch: from its first block (plus npre after a length change, and never before stream start + npre) to npost samples before its last delivered frame; samples outside are exempt",
 				"dead time after a trigger T is T < i <= T+nsamp (inside a block the scan resumes at T+nsamp+1, across blocks at T+nsamp; both are readings of 'one-record dead time')"},
 			Guards: map[string]map[string]int{
